@@ -3,6 +3,7 @@ CONSTANTS
   BoundedWalk = TRUE
   MaxLinkMaps = 4
   NNodes = 2
-INVARIANTS Total NoDevOpen WalkBounded
+  StopOnDecodeError = TRUE
+INVARIANTS Total NoDevOpen WalkBounded DsoFailsIsTheSteps
 PROPERTY Terminates
 CHECK_DEADLOCK FALSE
